@@ -260,7 +260,7 @@ use crate::netrun::{self, CaseResult};
 
 pub fn cases(tier: &str) -> Vec<Value> {
     let thorough = tier == "thorough";
-    let mut out = vec![];
+    let mut out = crate::checks::episode::cases("c04", thorough);
     let mut adv: Vec<&str> = vec!["none", "size:0", "size:511", "size:512", "size:513", "size:1232", "size:4096", "size:65535"];
     if thorough {
         adv.extend(["size:600", "size:1024", "size:1500", "size:2048", "size:4095", "size:8192", "size:16384", "size:32768"]);
@@ -376,7 +376,22 @@ pub fn big_exchange_from(rig: &mut Rig, qb: &[u8], transport: &str, pad: usize, 
     Ok((got, full, fl))
 }
 
+fn run_episode(case: &Value) -> CaseResult {
+    match crate::checks::episode::run(case) {
+        Err(e) => CaseResult::machinery(format!("episode: {e}")),
+        Ok(o) => {
+            let mut res = CaseResult::ok(format!("episode:{}:{}:{}", case["c1"].as_str().unwrap_or(""), case["action"].as_str().unwrap_or(""), match o.q1.replies.first() { Some((_, m)) => format!("rcode{}", m.rcode()), None => "silent".into() }));
+            res.violations = crate::checks::episode::judge_c04(case, &o);
+            res.stats = crate::checks::episode::stats(&o);
+            res
+        }
+    }
+}
+
 pub fn run_case(case: &Value) -> CaseResult {
+    if case["kind"].as_str() == Some("episode") {
+        return run_episode(case);
+    }
     let edns = case["edns"].as_str().unwrap_or("none");
     let transport = case["transport"].as_str().unwrap_or("udp");
     let thorough = case["thorough"].as_bool().unwrap_or(false);
